@@ -7,6 +7,8 @@ import S3db.Gen.Crdt
 import S3db.Gen.Key
 import S3db.Model.Proto
 import S3db.Model.Txn
+import S3db.Model.Schema
+import S3db.Model.Box
 import S3db.Gen.Facts
 /-!
 # Line-protocol driver for the correspondence checks
@@ -271,6 +273,95 @@ def connStep (st : ConnState) (args : List String) : ConnState × String :=
     ({ st with clock := st.clock + 1, last := some t }, out)
   | _ => (st, "bad-op")
 
+/-! ## table definitions -/
+
+def unhexStr (s : String) : Option String :=
+  if s == "-" then some "" else
+  match unhex s with
+  | some bs => some (String.fromUTF8! (ByteArray.mk (bs.map (·.toUInt8)).toArray))
+  | none => none
+
+def hexStr (s : String) : String := if s == "" then "-" else hex (s.toUTF8.toList.map (·.toNat))
+
+open S3db.Schema in
+def parseConsList : Nat → List String → List Cons → Option (List Cons × List String)
+  | 0, rest, acc => some (acc.reverse, rest)
+  | n + 1, c :: rest, acc =>
+    match c with
+    | "pk" => parseConsList n rest (.primaryKey :: acc)
+    | "notnull" => parseConsList n rest (.notNull :: acc)
+    | "unique" => parseConsList n rest (.unique :: acc)
+    | "other" => parseConsList n rest (.other :: acc)
+    | _ => none
+  | _, _, _ => none
+
+def parseNames : Nat → List String → List String → Option (List String × List String)
+  | 0, rest, acc => some (acc.reverse, rest)
+  | n + 1, x :: rest, acc =>
+    match unhexStr x with
+    | some s => parseNames n rest (s :: acc)
+    | none => none
+  | _, _, _ => none
+
+open S3db.Schema in
+def parseItems : Nat → List String → List Item → Option (List Item × List String)
+  | 0, rest, acc => some (acc.reverse, rest)
+  | n + 1, "col" :: name :: kt :: nc :: rest, acc =>
+    match unhexStr name, nc.toNat? with
+    | some name, some nc =>
+      match parseConsList nc rest [] with
+      | some (cs, rest') => parseItems n rest' (.col name (kt == "1") cs :: acc)
+      | none => none
+    | _, _ => none
+  | n + 1, "tpk" :: cnt :: rest, acc =>
+    match cnt.toNat? with
+    | some cnt =>
+      match parseNames cnt rest [] with
+      | some (ns, rest') => parseItems n rest' (.tablePK ns :: acc)
+      | none => none
+    | none => none
+  | _, _, _ => none
+
+open S3db.Schema in
+def parseOpts : Nat → List String → List (String × OptVal) → Option (List (String × OptVal))
+  | 0, [], acc => some acc.reverse
+  | n + 1, name :: v :: rest, acc =>
+    match unhexStr name with
+    | some name =>
+      let ov : Option OptVal :=
+        if v == "none" then some .none
+        else if v == "text" then some .text
+        else if v.startsWith "num:" then (v.drop 4).toString.toInt?.map .number
+        else none
+      match ov with
+      | some ov => parseOpts n rest ((name, ov) :: acc)
+      | none => none
+    | none => none
+  | _, _, _ => none
+
+open S3db.Schema in
+def schemaStep (args : List String) : String :=
+  match args with
+  | "create" :: hasCols :: nitems :: rest =>
+    match nitems.toNat? with
+    | some ni =>
+      match parseItems ni rest [] with
+      | some (items, nopts :: rest') =>
+        match nopts.toNat? with
+        | some no =>
+          match parseOpts no rest' [] with
+          | some opts =>
+            match create S3db.Gen.facts (if hasCols == "1" then some items else none) opts with
+            | some (d, o) =>
+              let cols := d.cols.map fun (n, nn) => hexStr n ++ ":" ++ (if d.key == some n then "k" else if nn then "1" else "0")
+              s!"accept cols={",".intercalate cols} key={match d.key with | some k => hexStr k | none => "-"} epn={o.entriesPerNode} cache={o.nodeCache} ro={if o.readonly then 1 else 0}"
+            | none => "reject"
+          | none => "bad-op"
+        | none => "bad-op"
+      | _ => "bad-op"
+    | none => "bad-op"
+  | _ => "bad-op"
+
 /-! ## keys -/
 
 def showOptInt (o : Option Int) : String := match o with | some i => toString i | none => "panic"
@@ -295,6 +386,8 @@ def step (st : State) (line : String) : State × String :=
   | "kv" :: rest => let (k, out) := kvStep st.kv rest; ({ st with kv := k }, out)
   | "key" :: rest => (st, keyStep rest)
   | "row" :: rest => (st, rowStep rest)
+  | "box" :: rest => (st, S3db.Box.step rest)
+  | "schema" :: rest => (st, schemaStep rest)
   | "conn" :: rest => let (c, out) := connStep st.conn rest; ({ st with conn := c }, out)
   | "proto" :: rest => let (p, out) := protoStep st.proto rest; ({ st with proto := p }, out)
   | "tbl" :: rest => let (t, out) := tblStep st.tbl rest; ({ st with tbl := t }, out)
